@@ -150,6 +150,78 @@ def check_generic(case: t.Any, ctx: Ctx) -> None:
         ctx.fail('rejects-non-members', 'generic-inherit', f"{ident}: {swapped!r} has its values the wrong way round but was accepted as {short(r2, 120)}")
 
 
+# ---- named tuples ---------------------------------------------------------------------------------------------------------------
+#
+# A typing.NamedTuple / collections.namedtuple class is a tuple type with one slot per field (of the annotated type; any value where
+# there is no annotation): sequences of that length whose items are accepted slot by slot, nothing else; the result is an instance
+# of the class holding the converted items; into_data gives them back.
+
+_NT: t.Dict[str, t.Any] = {}
+_NT_VALUES = [[1, 'a'], (2, 'b'), [1], ['a'], [None], [1.5], [True], [1, 'a', 3], [], ['a', 1], [[1], 'a'], 'ab', {'a': 1, 'b': 'x'}, None, 5, [1, 2], [1, None]]
+
+
+def _nt_classes() -> t.Dict[str, t.Any]:
+    if not _NT:
+        import collections
+        _NT['Pt'] = t.NamedTuple('Pt', [('a', int), ('b', str)])
+        _NT['One'] = t.NamedTuple('One', [('x', int)])
+        _NT['Opt'] = t.NamedTuple('Opt', [('a', int), ('b', t.Optional[str])])
+        _NT['Plain'] = collections.namedtuple('Plain', ['p', 'q'])
+    return _NT
+
+
+def nt_cases(shard: int, nshards: int) -> t.Iterator[t.Any]:
+    i = 0
+    for name in ('Pt', 'One', 'Opt', 'Plain'):
+        for wrap in ('bare', 'List', 'field'):
+            for vi in range(len(_NT_VALUES)):
+                if i % nshards == shard:
+                    yield [name, wrap, vi]
+                i += 1
+
+
+def check_namedtuple(case: t.Any, ctx: Ctx) -> None:
+    import pane
+    (name, wrap, vi) = case
+    cls = _nt_classes()[name]
+    v = _NT_VALUES[vi]
+    slots = {'Pt': [int, str], 'One': [int], 'Opt': [int, (str, type(None))], 'Plain': [object, object]}[name]
+    ok = isinstance(v, (list, tuple)) and len(v) == len(slots) and all(
+        (s is object) or (type(x) in (s if isinstance(s, tuple) else (s,))) for (s, x) in zip(slots, v))
+    unspec = isinstance(v, (list, tuple)) and len(v) == len(slots) and any(type(x) is bool and s is int for (s, x) in zip(slots, v))
+    ctx.label(f"nt:{name}", wrap, 'accept' if ok else 'reject')
+    ctx.nontrivial(True)
+    if unspec:
+        ctx.exclude('unspecified: bool given to a numeric target')
+        return
+    if wrap == 'bare':
+        (T, data, get) = (cls, v, lambda r: r)
+    elif wrap == 'List':
+        (T, data, get) = (t.List[cls], [v], lambda r: r[0])
+    else:
+        if ('H', name) not in _NT:
+            _NT[('H', name)] = type('NtHolder', (pane.PaneBase,), {'__annotations__': {'p': cls}})
+        (T, data, get) = (_NT[('H', name)], {'p': v}, lambda r: r.p)
+    ctx.evaluated()
+    (k, r) = outcome(lambda: pane.from_data(data, T))
+    ident = f"{name}{tuple(getattr(cls, '__annotations__', {}).items()) or cls._fields} ({wrap}) given {short(v, 60)}"
+    if ok:
+        if k != 'ok':
+            ctx.fail('verdict', 'namedtuple:refused', f"{ident}: every item is accepted by its slot, but {type(r).__name__}: {str(r)[:200]}")
+            return
+        x = get(r)
+        if type(x) is not cls or tuple(x) != tuple(v):
+            ctx.fail('exactly-typed', 'namedtuple', f"{ident}: returned {short(x, 100)} (a {type(x).__name__}), expected {cls(*v)!r}")
+            return
+        (k2, d) = outcome(lambda: pane.into_data(x, cls))
+        if k2 != 'ok' or list(d) != list(v):
+            ctx.fail('exactly-typed', 'namedtuple:into_data', f"{ident}: into_data of the result gives {short(d, 100)}")
+    elif k == 'ok':
+        ctx.fail('verdict', 'namedtuple:accepted', f"{ident}: not a sequence of {len(slots)} items accepted slot by slot, but {short(get(r), 100)} was returned")
+    elif k != 'ce':
+        ctx.fail('unexpected-exception', f"namedtuple:{type(r).__name__}", f"{ident}: {type(r).__name__}: {str(r)[:200]}")
+
+
 def suites(tier: str) -> t.List[Suite]:
     big = tier == 'thorough'
     leaves = 8 if big else 4
@@ -158,6 +230,8 @@ def suites(tier: str) -> t.List[Suite]:
               budget_s=480 if big else 40, render=gen.render_case),
         Suite('subclass-inputs', check, strategy=lambda: gen.subclassed_cases(gen.all_type_specs(3, with_classes=False)), examples=2000 if big else 150,
               budget_s=120 if big else 15, render=gen.render_case),
+        Suite('namedtuple', check_namedtuple, cases=nt_cases, exhaustive=True, budget_s=60,
+              render=lambda c: {'class': c[0], 'position': c[1], 'value': short(_NT_VALUES[c[2]], 60)}),
         Suite('generic-inherit', check_generic, strategy=generic_cases, examples=300 if big else 30, budget_s=60 if big else 10,
               render=lambda c: {'shape': c[0], 'arguments': c[1]}),
     ]
